@@ -28,7 +28,7 @@ CHECKS = {
          "model checking + trace validation; found and now guards finding F5", "5 C08"),
  "C11": ("BigNat.tla / Time.tla / MC_Time / NumTrace.tla", "TLC: MC_Time checks the algebraic laws of Time.tla's Elapsed (monotone in b, additive within 1 ps per term, translation invariant, zero for b < a) on the 64-bit boundary grid with arbitrary-precision BigNat arithmetic; every (a, b, f, result) of TscTimestamp::duration_since, every Duration conversion and every Timer::precision() measured against a quantised virtual clock is recomputed in TLA+ (NumTrace)",
          "model checking of the laws + TLC as exact evaluator over recorded calls (boundary grids, log-spaced and random 64-bit inputs, near-overflow products)", "5 C11"),
- "C12": ("Runner.tla / RunnerTrace.tla (registry rules)", "TLC trace validation on macro-generated crates (back-end M: 112 syntactic forms of #[divan::bench] / #[divan::bench_group], compiled against the real macros): the dumped registry (names, module paths, source positions, options, argument cases, types x consts instances) must equal what Runner.tla derives from the written program, nothing else registered; printed tree and executed cases as for C13; back-end R with permuted registration orders",
+ "C12": ("Runner.tla / RunnerTrace.tla (registry rules); EntryList.tla / EntryListTrace.tla / EntryListL1Trace.tla (registration list)", "TLC trace validation on macro-generated crates (back-end M: 112 syntactic forms of #[divan::bench] / #[divan::bench_group], compiled against the real macros): the dumped registry (names, module paths, source positions, options, argument cases, types x consts instances) must equal what Runner.tla derives from the written program, nothing else registered; printed tree and executed cases as for C13; back-end R with permuted registration orders (incl. group modules holding only generic benchmarks); the lock-free registration list: TLC model checking of EntryList.tla (all interleavings of the atomic operations of concurrent push / iter) and TLC trace validation of the real list under the deterministic scheduler (sequential orders decide C12; concurrent executions are validated and reported as beyond the property)",
          "TLC compares registry dumps and runs of generated crates with the declarative program semantics", "5 C12"),
  "C13": ("Runner.tla / Filters.tla / RunnerTrace.tla", "TLC trace validation: for every generated program x filter set (positional / --skip / --exact, regex subset with explicit AST) the set of printed nodes and of invoked cases is compared with Runner.tla's declarative selection on full display paths (per argument case; parents iff a selected case lies below); FilterSet::is_match in-crate against Filters.tla",
          "TLC evaluates the declarative pipeline over generated programs executed by the real runner", "5 C13"),
